@@ -4304,7 +4304,7 @@ def jobs_union_ops(tier):
 
 # ------------------------------------------------------------------------------------------------ C03: ListOffsetArray64::reduce_next, non-local branch
 @guard
-def h_reduce_nonlocal(lens, parents, positions):
+def h_reduce_nonlocal(lens, parents, positions, cls='ListOffsetArray64'):
     """ListOffsetArray64::reduce_next for a reduction *at* this list level's parent axis (the 'non-local' branch, e.g. axis=0 of a list of lists): the
     elements that agree on everything but the reduced coordinate are those at the same position j of the lists of one outer group g.  Decided:
     the content is handed every covered element exactly once; two handed elements carry the same group number exactly when they share (g, j);
@@ -4329,7 +4329,14 @@ def h_reduce_nonlocal(lens, parents, positions):
     nc.m.eng.stubs['vf$slot%d' % nc.slot('11reduce_nextERKNS_7ReducerEl')] = s_reduce_next
     nc.m.eng.stubs['vf$slot%d' % nc.slot('12branch_depthEv')] = lambda eng, fr, ins, st, name, argv: [z3.BitVecVal(0, 8), BV(1)]
     nc.m.eng.stubs['vf$slot%d' % nc.slot('20dimension_optiontypeEv')] = lambda eng, fr, ins, st, name, argv: z3.BitVecVal(0, 1)
-    this, lists, offs = build_listoffset64(nc, lens)
+    this, lists, starts_, offs, short = list_node(nc, cls, tuple(lens) if cls != 'RegularArray' else (lens[0] if lens else 0, len(lens)))
+    el = lambda i, j: lists[i][j].val
+    if cls.startswith('ListArray'):
+        # elements are identified by their position in the content: lists that overlap would make two elements indistinguishable here
+        for i1 in range(len(lens)):
+            for i2 in range(i1 + 1, len(lens)):
+                if lens[i1] and lens[i2]:
+                    nc.m.assume(z3.Or(starts_[i1] + lens[i1] <= starts_[i2], starts_[i2] + lens[i2] <= starts_[i1]))
 
     def index64(name, vals):
         arr = z3.K(z3.BitVecSort(64), BV(0))
@@ -4351,7 +4358,8 @@ def h_reduce_nonlocal(lens, parents, positions):
     nc.m.eng.stubs['vf$red%d' % rp_slot] = lambda eng, fr, ins, st, name, argv: z3.BitVecVal(1 if positions else 0, 1)
     reducer = nc.m.record('reducer', {0: (Ptr('redvt', 0), 8)}, const=True)
     nc.m.record('ret', {})
-    fn = '_ZNK7awkward17ListOffsetArrayOfIlE11reduce_nextERKNS_7ReducerElRKNS_7IndexOfIlEES8_S8_lbb'
+    cands_ = [f_ for mod_ in nc.m.eng.mods for f_ in mod_.func_src if f_.startswith('_ZNK7awkward%s11reduce_nextERKNS_7ReducerEl' % short)]
+    fn = cands_[0]
     # the list level is one above the leaf: branch_depth() of this node is (false, 2), so negaxis = 2 selects the non-local branch
     out = nc.m.call(fn, [Ptr('ret', 0), this, reducer, BV(2), starts, shifts, pidx, BV(outlength), z3.BitVecVal(0, 1), z3.BitVecVal(0, 1)])
     obls = [('reduce_next does not raise', out.raised),
@@ -4366,13 +4374,13 @@ def h_reduce_nonlocal(lens, parents, positions):
         pars = ob['parents']
         if len(pars) != hl:
             obls.append(('one group number per handed element', g_)); continue
-        # where element (i, j) went: by atom value offs[i] + j (atoms are distinct positions of the original content)
+        # where element (i, j) went: by atom value el(i, j) (atoms are distinct positions of the original content)
         key_of = []          # per handed k: ite-selected (outer group, position j, list index i) as z3 terms
         for k in range(hl):
             gi, ji, ii, found = BV(-1), BV(-1), BV(-1), z3.BoolVal(False)
             for i in range(n):
                 for j in range(lens[i]):
-                    hit = atoms[k] == offs[i] + j
+                    hit = atoms[k] == el(i, j)
                     gi, ji, ii = z3.If(hit, BV(parents[i]), gi), z3.If(hit, BV(j), ji), z3.If(hit, BV(i), ii)
                     found = z3.Or(found, hit)
             key_of.append((z3.simplify(gi), z3.simplify(ji), z3.simplify(ii)))
@@ -4405,7 +4413,7 @@ def h_reduce_nonlocal(lens, parents, positions):
                     for i in range(n):
                         for j in range(lens[i]):
                             cnt = sum(1 for i2 in range(i) if parents[i2] == parents[i] and lens[i2] <= j)
-                            want = z3.If(atoms[k] == offs[i] + j, BV(cnt), want)
+                            want = z3.If(atoms[k] == el(i, j), BV(cnt), want)
                     obls.append(('shift of handed element %d = earlier lists of its group too short for its position' % k, G(ob['shifts'][k] != want)))
         else:
             obls.append(('no shifts for reducers that do not return positions', G(z3.BoolVal(len(ob['shifts']) != 0))))
@@ -4429,23 +4437,25 @@ def h_reduce_nonlocal(lens, parents, positions):
                     wit = [i for i in range(n) if parents[i] == g and lens[i] > j][0]
                     idt = BV(-1)
                     for k in range(hl):
-                        idt = z3.If(atoms[k] == offs[wit] + j, pars[k], idt)
+                        idt = z3.If(atoms[k] == el(wit, j), pars[k], idt)
                     obls.append(('result %d of outer group %d is the reduction of its position-%d elements' % (j, g, j), z3.And(g_, ob['pc'], val[g][j].val != RED(idt))))
 
     def replay(model, ent):
-        ov = offsets_values(model, offs)
-        lc = max(model.eval(nc.lencontent, model_completion=True).as_signed_long(), ov[-1])
+        lc = model.eval(nc.lencontent, model_completion=True).as_signed_long()
         if lc > 200:
-            return False, 'content too long to replay', dict(offsets=ov)
+            return False, 'content too long to replay', {}
+        head0, inp0 = node_program(nc, model, lc)
         # outer list structure from the parents: group g holds the lists with parents == g (consecutive)
         counts = [sum(1 for p in parents if p == g) for g in range(outlength)]
         oo, acc = [0], 0
         for c in counts:
             acc += c; oo.append(acc)
-        vals = [7 * v % 11 for v in range(lc)]
-        inner = [vals[ov[i]:ov[i + 1]] for i in range(n)]
+        ntoks = head0.split()
+        cnt = int(ntoks[1])
+        vals = [7 * v % 11 for v in range(cnt)]
+        inner = [[vals[x] for x in lst] for lst in inp0]
         nested = [inner[oo[g]:oo[g + 1]] for g in range(outlength)]
-        head = 'i64 %s listoffset64 %s listoffset64 %s ' % (fullnative.ints(vals), fullnative.ints(ov), fullnative.ints(oo))
+        head = 'i64 %s ' % fullnative.ints(vals) + ' '.join(ntoks[2 + cnt:]) + ' listoffset64 %s ' % fullnative.ints(oo)
         import itertools as _it
         if positions:
             def ref(group):
@@ -4458,8 +4468,8 @@ def h_reduce_nonlocal(lens, parents, positions):
             return akrun_check(head + 'reduce argmax 1 0 0', [ref(gp) for gp in nested], 'argmax(axis=1) of %s' % nested)
         ref = lambda group: [sum(x for x in col if x is not None) for col in _it.zip_longest(*group)]
         return akrun_check(head + 'reduce sum 1 0 0', [ref(gp) for gp in nested], 'sum(axis=1) of %s' % nested)
-    return mdischarge(nc.m, 'ListOffsetArray64::reduce_next non-local lens=%s parents=%s%s' % (','.join(map(str, lens)), ','.join(map(str, parents)), ' positions' if positions else ''), obls,
-                      [('non-zero offset origin', offs[0] > 0)], replay=replay, prefer=[offs[0] <= 3, nc.lencontent <= offs[-1] + 2],
+    return mdischarge(nc.m, cls + '::reduce_next non-local lens=%s parents=%s%s' % (','.join(map(str, lens)), ','.join(map(str, parents)), ' positions' if positions else ''), obls,
+                      [('non-zero offset origin', offs[0] > 0)] if cls.startswith('ListOffset') else [], replay=replay, prefer=[o <= 4 for o in offs[:1]] + [nc.lencontent <= 24],
                       extra=dict(bounds='list lengths %s and outer groups %s concrete (case split); offsets origin symbolic; opaque leaf content' % (lens, parents)))
 
 
@@ -4467,10 +4477,14 @@ def jobs_reduce_nonlocal(tier):
     q = [((2, 1), (0, 0)), ((1, 2, 1), (0, 0, 1)), ((0, 2), (0, 0)), ((2, 0, 3), (0, 1, 1)), ((0, 1, 1), (0, 0, 1)), ((0, 2, 1, 2), (0, 0, 1, 1))]
     if tier != 'quick':
         q += [((1, 1, 1), (0, 0, 0)), ((3, 1, 2), (0, 0, 0)), ((2, 2), (0, 2)), ((1,), (0,)), ((0, 0), (0, 0))]
-    return [(h_reduce_nonlocal, (l, p, pos), 1800) for l, p in q for pos in (False, True)]
+    js = [(h_reduce_nonlocal, (l, p, pos), 1800) for l, p in q for pos in (False, True)]
+    for k, cls in enumerate(('ListOffsetArrayU32', 'ListArray64', 'ListArray32', 'RegularArray')):
+        for l, p in ([((2, 2), (0, 0))] if cls == 'RegularArray' else (q[4:5] if tier == 'quick' else q[:5])):
+            js.append((h_reduce_nonlocal, (l, p, bool(k % 2), cls), 1800))
+    return js
 
 
-def _handed_on_obligations(ob, lens, parents, offs, with_shifts):
+def _handed_on_obligations(ob, lens, parents, el, with_shifts):
     """what a list node hands to its content when the operation goes across the lists of an outer group (shared by reduce / sort / argsort):
     -> (obligations, atoms of the handed content, group numbers) ; see h_reduce_nonlocal"""
     n, total = len(lens), sum(lens)
@@ -4488,7 +4502,7 @@ def _handed_on_obligations(ob, lens, parents, offs, with_shifts):
         gi, ji, found = BV(-1), BV(-1), z3.BoolVal(False)
         for i in range(n):
             for j in range(lens[i]):
-                hit = atoms[k] == offs[i] + j
+                hit = atoms[k] == el(i, j)
                 gi, ji = z3.If(hit, BV(parents[i]), gi), z3.If(hit, BV(j), ji)
                 found = z3.Or(found, hit)
         key_of.append((z3.simplify(gi), z3.simplify(ji)))
@@ -4499,7 +4513,7 @@ def _handed_on_obligations(ob, lens, parents, offs, with_shifts):
             same_key = z3.And(key_of[a][0] == key_of[b][0], key_of[a][1] == key_of[b][1])
             obls.append(('elements %d and %d share a group number exactly when they share (outer group, position)' % (a, b), G((pars[a] == pars[b]) != same_key)))
             # members of one group keep the order of their lists (what "first" and "stable" mean below)
-            lst = lambda k_: z3.simplify(_list_of(atoms[k_], lens, offs))
+            lst = lambda k_: z3.simplify(_list_of(atoms[k_], lens, el))
             obls.append(('within a group the handed order is the order of the lists (%d, %d)' % (a, b), G(z3.And(pars[a] == pars[b], lst(a) > lst(b)))))
     for k in range(hl):
         st_k = ob['starts'][0] if ob['starts'] else BV(-1)
@@ -4518,21 +4532,21 @@ def _handed_on_obligations(ob, lens, parents, offs, with_shifts):
                 for i in range(n):
                     for j in range(lens[i]):
                         cnt = sum(1 for i2 in range(i) if parents[i2] == parents[i] and lens[i2] <= j)
-                        want = z3.If(atoms[k] == offs[i] + j, BV(cnt), want)
+                        want = z3.If(atoms[k] == el(i, j), BV(cnt), want)
                 obls.append(('shift of handed element %d = earlier lists of its group too short for its position' % k, G(ob['shifts'][k] != want)))
     return obls, atoms, pars
 
 
-def _list_of(atom, lens, offs):
+def _list_of(atom, lens, el):
     v = BV(-1)
     for i in range(len(lens)):
         for j in range(lens[i]):
-            v = z3.If(atom == offs[i] + j, BV(i), v)
+            v = z3.If(atom == el(i, j), BV(i), v)
     return v
 
 
 @guard
-def h_sort_nonlocal(lens, parents, arg):
+def h_sort_nonlocal(lens, parents, arg, cls='ListOffsetArray64'):
     """ListOffsetArray64::sort_next / argsort_next across the lists of an outer group (e.g. ak.sort(axis=0) of a list of lists): the content is
     handed the elements grouped by (outer group, position) - as for reductions - and whatever the content answers for the element handed at
     position k ends up at the place of the very element that was handed at position k: same list, same position; list lengths are unchanged"""
@@ -4564,7 +4578,14 @@ def h_sort_nonlocal(lens, parents, arg):
     from .mbuild import cstring_stubs
     nc.m.eng.stubs.update({k_: v_ for k_, v_ in cstring_stubs().items() if 'compare' in k_})
     nc.m.eng.stubs['vf$slot%d' % nc.slot('12branch_depthEv')] = lambda eng, fr, ins, st, name, argv: [z3.BitVecVal(0, 8), BV(1)]
-    this, lists, offs = build_listoffset64(nc, lens)
+    this, lists, starts_, offs, short = list_node(nc, cls, tuple(lens) if cls != 'RegularArray' else (lens[0] if lens else 0, len(lens)))
+    el = lambda i, j: lists[i][j].val
+    if cls.startswith('ListArray'):
+        # elements are identified by their position in the content: lists that overlap would make two elements indistinguishable here
+        for i1 in range(len(lens)):
+            for i2 in range(i1 + 1, len(lens)):
+                if lens[i1] and lens[i2]:
+                    nc.m.assume(z3.Or(starts_[i1] + lens[i1] <= starts_[i2], starts_[i2] + lens[i2] <= starts_[i1]))
 
     def index64(name, vals):
         arr = z3.K(z3.BitVecSort(64), BV(0))
@@ -4581,16 +4602,16 @@ def h_sort_nonlocal(lens, parents, arg):
     nc.m.record('ret', {})
     asc, stb = nc.m.bv('ascending', 1), nc.m.bv('stable', 1)
     if arg:
-        cands = [f for mod_ in nc.m.eng.mods for f in mod_.func_src if f.startswith('_ZNK7awkward17ListOffsetArrayOfIlE12argsort_nextE')]
+        cands = [f for mod_ in nc.m.eng.mods for f in mod_.func_src if f.startswith('_ZNK7awkward%s12argsort_nextE' % short)]
         out = nc.m.call(cands[0], [Ptr('ret', 0), this, BV(2), starts, shifts, pidx, BV(outlength), asc, stb])
     else:
-        cands = [f for mod_ in nc.m.eng.mods for f in mod_.func_src if f.startswith('_ZNK7awkward17ListOffsetArrayOfIlE9sort_nextE')]
+        cands = [f for mod_ in nc.m.eng.mods for f in mod_.func_src if f.startswith('_ZNK7awkward%s9sort_nextE' % short)]
         out = nc.m.call(cands[0], [Ptr('ret', 0), this, BV(2), starts, pidx, BV(outlength), asc, stb])
     if n == 0:
         return mdischarge(nc.m, 'ListOffsetArray64::%s non-local (no lists)' % ('argsort_next' if arg else 'sort_next'), [('does not raise', out.raised)], [], replay=None)
     obls = [('does not raise', out.raised), ('the content is asked (on every path)', z3.Not(z3.Or([ob['pc'] for ob in seen] + [z3.BoolVal(False)])))]
     for ob in seen:
-        o2, atoms, pars = _handed_on_obligations(ob, lens, parents, offs, with_shifts=arg)
+        o2, atoms, pars = _handed_on_obligations(ob, lens, parents, el, with_shifts=arg)
         obls += o2
         G = lambda c: z3.And(ob['pc'], c)
         obls.append(('the sort below is asked one level further down', G(ob['negaxis'] != 1)))
@@ -4608,23 +4629,26 @@ def h_sort_nonlocal(lens, parents, arg):
                     # the answer for the element handed at position k returns to where that element came from
                     want = BV(-1)
                     for k in range(len(atoms)):
-                        want = z3.If(atoms[k] == offs[i] + j, S(BV(k)), want)
+                        want = z3.If(atoms[k] == el(i, j), S(BV(k)), want)
                     obls.append(('list %d position %d receives the answer for the element it handed on' % (i, j), z3.And(g_, ob['pc'], val[i][j].val != want)))
 
     def replay(model, ent):
-        ov = offsets_values(model, offs)
-        lc = max(model.eval(nc.lencontent, model_completion=True).as_signed_long(), ov[-1])
+        lc = model.eval(nc.lencontent, model_completion=True).as_signed_long()
         if lc > 200:
-            return False, 'content too long to replay', dict(offsets=ov)
+            return False, 'content too long to replay', {}
+        head0, inp0 = node_program(nc, model, lc)
         a_ = z3.is_true(model.eval(asc == 1, model_completion=True))
         counts = [sum(1 for p in parents if p == g) for g in range(outlength)]
         oo, acc = [0], 0
         for c in counts:
             acc += c; oo.append(acc)
-        vals = [7 * v % 11 for v in range(lc)]
-        inner = [vals[ov[i]:ov[i + 1]] for i in range(n)]
+        # same node, content values 7 * k % 11 instead of k (so that the order is not the input order)
+        ntoks = head0.split()
+        cnt = int(ntoks[1])
+        vals = [7 * v % 11 for v in range(cnt)]
+        inner = [[vals[x] for x in lst] for lst in inp0]
         nested = [inner[oo[g]:oo[g + 1]] for g in range(outlength)]
-        head = 'i64 %s listoffset64 %s listoffset64 %s ' % (fullnative.ints(vals), fullnative.ints(ov), fullnative.ints(oo))
+        head = 'i64 %s ' % fullnative.ints(vals) + ' '.join(ntoks[2 + cnt:]) + ' listoffset64 %s ' % fullnative.ints(oo)
 
         def ref(group):
             out_ = [list(l) for l in group]
@@ -4638,8 +4662,8 @@ def h_sort_nonlocal(lens, parents, arg):
             return out_
         exp = [ref(gp) for gp in nested]
         return akrun_check(head + '%s 1 %d 1' % ('argsort' if arg else 'sort', 1 if a_ else 0), exp, '%s(axis=1, ascending=%s, stable) of %s' % ('argsort' if arg else 'sort', a_, nested))
-    return mdischarge(nc.m, 'ListOffsetArray64::%s non-local lens=%s parents=%s' % ('argsort_next' if arg else 'sort_next', ','.join(map(str, lens)), ','.join(map(str, parents))), obls,
-                      [('non-zero offset origin', offs[0] > 0)], replay=replay, prefer=[offs[0] <= 3, nc.lencontent <= offs[-1] + 2],
+    return mdischarge(nc.m, '%s::%s non-local lens=%s parents=%s' % (cls, 'argsort_next' if arg else 'sort_next', ','.join(map(str, lens)), ','.join(map(str, parents))), obls,
+                      [('non-zero offset origin', offs[0] > 0)] if cls.startswith('ListOffset') else [], replay=replay, prefer=[o <= 4 for o in offs[:1]] + [nc.lencontent <= 24],
                       extra=dict(bounds='list lengths %s and outer groups %s concrete (case split); offsets origin, direction and stability symbolic; opaque leaf content' % (lens, parents)))
 
 
@@ -4647,7 +4671,11 @@ def jobs_sort_nonlocal(tier):
     q = [((2, 1), (0, 0)), ((1, 2, 1), (0, 0, 1)), ((0, 1, 1), (0, 0, 1))]
     if tier != 'quick':
         q += [((0, 2, 1, 2), (0, 0, 1, 1)), ((2, 0, 3), (0, 1, 1)), ((1, 1, 1), (0, 0, 0)), ((2, 2), (0, 2))]
-    return [(h_sort_nonlocal, (l, p, a), 1800) for l, p in q for a in (False, True)]
+    js = [(h_sort_nonlocal, (l, p, a), 1800) for l, p in q for a in (False, True)]
+    for k, cls in enumerate(('ListArray32', 'ListArray64', 'ListArrayU32', 'RegularArray')):
+        for l, p in ([((2, 2), (0, 0))] if cls == 'RegularArray' else (q[1:2] if tier == 'quick' else q[:4])):
+            js.append((h_sort_nonlocal, (l, p, bool(k % 2), cls), 1800))
+    return js
 
 
 # ------------------------------------------------------------------------------------------------ C06: sorting through an option node (None re-insertion)
